@@ -13,6 +13,7 @@ from typing import (
     List,
     Optional,
     Sequence,
+    Set,
     Tuple,
     Type,
     Union,
@@ -742,6 +743,7 @@ class PDFDocument:
         self._parser = None
         self._cached_objs: Dict[int, Tuple[object, int]] = {}
         self._parsed_objs: Dict[int, Tuple[List[object], int]] = {}
+        self._parsing_objs: Set[int] = set()
         self._parser = parser
         self._parser.set_document(self)
         self.is_printable = self.is_modifiable = self.is_extractable = True
@@ -891,7 +893,17 @@ class PDFDocument:
                         stream = stream_value(self.getobj(strmid))
                         obj = self._getobj_objstm(stream, index, objid)
                     else:
-                        obj = self._getobj_parse(index, objid)
+                        if objid in self._parsing_objs:
+                            # e.g. a stream whose /Length refers to the stream
+                            # itself: reading the object needs the object.
+                            raise PDFSyntaxError(
+                                f"Object {objid} is needed to parse itself"
+                            )
+                        self._parsing_objs.add(objid)
+                        try:
+                            obj = self._getobj_parse(index, objid)
+                        finally:
+                            self._parsing_objs.discard(objid)
                         if (
                             isinstance(obj, PDFStream)
                             and obj.get("Type") is LITERAL_XREF
